@@ -39,60 +39,66 @@ func propC06(c *Ctx) {
 	// ---- R6.1 ---------------------------------------------------------
 	c.Rule("R6.1", "target clipped to stop before the step size; step size = min(clipped target - position, batch) is the limit passed to load", 3)
 	limit := ld.Call.Args[5]
-	minCall, _ := limit.(*ssa.Call)
-	var target ssa.Value
-	okMin := false
-	if minCall != nil && calleeName(minCall) == "builtin min" && len(minCall.Call.Args) == 2 {
-		for i, a := range minCall.Call.Args {
-			other := minCall.Call.Args[1-i]
-			if b, ok := a.(*ssa.BinOp); ok && b.Op == token.SUB && b.Y == localNum && isStopLoad(other, fBatch) {
-				target = b.X
-				okMin = true
+	// the step size is bounded by the batch size and by (target - position);
+	// the target is whatever position is subtracted from
+	var target, span ssa.Value
+	{
+		seen := map[ssa.Value]bool{}
+		var walk func(v ssa.Value, d int)
+		walk = func(v ssa.Value, d int) {
+			v = stripNum(v)
+			if seen[v] || d > 6 {
+				return
+			}
+			seen[v] = true
+			switch x := v.(type) {
+			case *ssa.BinOp:
+				if x.Op == token.SUB && stripNum(x.Y) == localNum {
+					target, span = x.X, x
+				}
+			case *ssa.Phi:
+				for _, e := range x.Edges {
+					walk(e, d+1)
+				}
+			case *ssa.Call:
+				if calleeName(x) == "builtin min" {
+					for _, a := range x.Call.Args {
+						walk(a, d+1)
+					}
+				}
 			}
 		}
+		walk(limit, 0)
 	}
-	c.Check("R6.1", "Converge/limit=min(target-position,batchSize)", ld.Pos(), okMin, "the limit argument of load is min(target - position, batchSize)")
+	ub := &ubound{fn: conv}
+	okMin := span != nil &&
+		ub.Bounded(limit, func(v ssa.Value) bool { return isStopLoad(v, fBatch) }) &&
+		ub.Bounded(limit, func(v ssa.Value) bool { return v == span })
+	c.Check("R6.1", "Converge/limit=min(target-position,batchSize)", ld.Pos(), okMin, "the limit argument of load is bounded by the batch size and by target - position")
 	if target != nil {
-		// target is a phi: one edge carries task.stop under `stop > 0 && prev > stop`, the others carry prev under the negation
-		phi, isPhi := target.(*ssa.Phi)
-		clipOK, detail := false, "the target used for the step size is not the stop-clipped value"
-		if isPhi {
-			var prev ssa.Value
-			for _, e := range phi.Edges {
-				if !isStopLoad(e, fStop) {
-					prev = e
-				}
-			}
-			stopPos, _ := cmpEdges(conv, func(b *ssa.BinOp) bool {
-				n, ok := constInt(b.Y)
-				return b.Op == token.GTR && isStopLoad(b.X, fStop) && ok && n == 0
-			})
-			gt, le := cmpEdges(conv, func(b *ssa.BinOp) bool {
-				return b.Op == token.GTR && b.X == prev && isStopLoad(b.Y, fStop)
-			})
-			_, stopZero := cmpEdges(conv, func(b *ssa.BinOp) bool {
-				n, ok := constInt(b.Y)
-				return b.Op == token.GTR && isStopLoad(b.X, fStop) && ok && n == 0
-			})
-			clipOK = prev != nil
-			for i, e := range phi.Edges {
-				pred := phi.Block().Preds[i]
-				if isStopLoad(e, fStop) {
-					if !(edgeGuarded(conv, pred, phi.Block(), gt) && edgeGuarded(conv, pred, phi.Block(), stopPos)) {
-						clipOK = false
-						detail = "stop is assigned to the target outside `stop > 0 && target > stop`"
-					}
-				} else if e == prev {
-					if !edgeGuarded(conv, pred, phi.Block(), append(append([]Edge{}, le...), stopZero...)) {
-						clipOK = false
-						detail = "an unclipped target reaches the step size although target > stop"
-					}
-				} else {
-					clipOK = false
-				}
-			}
+		// stop > 0 ⇒ target ≤ stop (vacuous when stop == 0), and target ≤ head always
+		_, stopZero := cmpEdges(conv, func(b *ssa.BinOp) bool {
+			n, ok := constInt(b.Y)
+			return b.Op == token.GTR && isStopLoad(b.X, fStop) && ok && n == 0
+		})
+		ubStop := &ubound{fn: conv, vac: stopZero}
+		clipOK := ubStop.Bounded(target, func(v ssa.Value) bool { return isStopLoad(v, fStop) })
+		detail := "an unclipped target reaches the step size although stop > 0 and target > stop"
+		if clipOK {
+			detail = "stop > 0 ⇒ the target used for the step size is ≤ stop"
 		}
 		c.Check("R6.1", "Converge/target-clipped-to-stop", ld.Pos(), clipOK, detail)
+		// the target never exceeds the head the source reported
+		var head ssa.Value
+		for _, ci := range callsIn(conv) {
+			if call, ok := ci.(*ssa.Call); ok && call.Common().IsInvoke() && call.Common().Method.Name() == "Latest" {
+				head = extractOf(call, 0)
+			}
+		}
+		if head != nil {
+			c.Check("R6.1", "Converge/target-bounded-by-head", ld.Pos(), (&ubound{fn: conv}).Bounded(target, func(v ssa.Value) bool { return v == head }),
+				"the target of a step never exceeds the head reported by the source (a stop beyond the head must not become the target)")
+		}
 	}
 	okStart := false
 	if b, ok := ld.Call.Args[4].(*ssa.BinOp); ok && b.Op == token.ADD && b.X == localNum {
